@@ -172,6 +172,49 @@ mut("C03", "hub-pop-from-front-shared", ST,
     "self._iters.pop()\n")
 
 
+# ---- C16
+mut("C16", "count-starts-at-zero", ST, "      count = 0.5\n",
+    "      count = 0.\n")
+mut("C16", "count-reset-after-start-drift", ST,
+    "          count -= delta # Delta might be float (less error "
+    "propagation)", "          count = 0.5")
+mut("C16", "termination-ignores-pending", ST,
+    "        if not (self.keep or self._playing or self._not_playing):",
+    "        if not (self.keep or self._playing):")
+mut("C16", "finished-events-not-pruned", ST,
+    "          for snd in to_remove:\n            self._playing.remove(snd)",
+    "          pass")
+mut("C16", "negative-delta-accepted", ST,
+    "    if delta < 0:\n      raise ValueError", "    if False:\n      raise ValueError")
+mut("C16", "controlstream-caches-value", ST,
+    "      while True:\n        yield self.value",
+    "      v = self.value\n      while True:\n        yield v")
+mut("C16", "controlstream-one-sample-lag", ST,
+    "      while True:\n        yield self.value",
+    "      prev = self.value\n      while True:\n        cur = self.value\n"
+    "        yield prev\n        prev = cur")
+mut("C16", "mutable-zero-regression", ST,
+    "            data = data + next(snd) # Not \"+=\": zero might be mutable",
+    "            data += next(snd)")
+mut("C16", "count-rounds-integer-time", ST,
+    "        count += 1.\n", "        count = int(count) + 1.5\n")
+mut("C16", "add-two-step-placeholder", ST,
+    "    self._not_playing.append((delta, iter(data)))",
+    "    self._not_playing.append((delta, None))\n"
+    "    self._not_playing[-1] = (delta, iter(data))")
+mut("C16", "start-only-one-event-per-sample", ST,
+    "        while self._not_playing and (count >= self._not_playing[0][0]):",
+    "        if self._not_playing and (count >= self._not_playing[0][0]):")
+mut("C16", "keep-ignored", ST,
+    "        if not (self.keep or self._playing or self._not_playing):",
+    "        if not (self._playing or self._not_playing):")
+
+
+
+# equivalent under the statement (differs only at exact half-sample ties,
+# where "nearest" allows both): "(count > self._not_playing[0][0])"
+
+
 def run_one(prop, name, path, old, new, tier, runs=None):
   tmp = tempfile.mkdtemp(prefix="verif-mut-")
   try:
